@@ -300,6 +300,19 @@ MultiAssignProg(p, q, first) ==
                (IF first THEN <<>> ELSE <<PV(5, Id(third))>>) \o <<Ret(ListE(<<Id("a"), Id("b"), Id("c")>>))>>
   IN <<VarS("mk", FuncE("", <<>>, <<VarS("a", I(1)), VarS("b", I(2)), VarS("c", I(3)), Ret(FuncE("", <<>>, inner))>>)),
        VarS("g", CallE(Id("mk"), <<>>)), PV(1, CallE(Id("g"), <<>>)), PV(2, CallE(Id("g"), <<>>)), ES(CallE(Id("g"), <<>>))>>
+\* a closure made inside a CALLBACK that a builtin invokes once per item (list.map / filter / each) captures the
+\* callback's parameter of THAT invocation: every closure keeps its own binding, also when it assigns to it
+MethCps(n) == CASE n = "map" -> <<109, 97, 112>> [] n = "filter" -> <<102, 105, 108, 116, 101, 114>> [] n = "each" -> <<101, 97, 99, 104>>
+CbClosureProg(meth, mutate, two) ==
+  LET inner == FuncE("", <<>>, (IF mutate THEN <<AssignS("x", "+=", I(10))>> ELSE <<>>) \o
+                               <<Ret(IF two THEN ListE(<<Id("i"), Id("x")>>) ELSE Id("x"))>>)
+      cb == FuncE("", (IF two THEN <<Param("i")>> ELSE <<>>) \o <<Param("x")>>, <<ES(CallE(AttrE(Id("fs"), "append", AppendCps), <<inner>>)), Ret(Id("x"))>>)
+      at(j) == CallE([k |-> "idx", a |-> Id("fs"), b |-> I(j)], <<>>)
+  IN <<VarS("fs", ListE(<<>>)),
+       ES(CallE(AttrE(ListE(<<I(1), I(2), I(3)>>), meth, MethCps(meth)), <<cb>>)),
+       PV(1, ListE(<<at(0), at(1), at(2), at(0)>>)), ES(I(0))>>
+CallbackClosures(u) == {CbClosureProg(m, mu, FALSE) : m \in {"map", "filter", "each"}, mu \in BOOLEAN}
+                       \cup {CbClosureProg("map", mu, TRUE) : mu \in BOOLEAN}
 MultiAssigns(u) == {MultiAssignProg(p, q, first) : p \in 1..3, q \in 1..3, first \in BOOLEAN} \ {MultiAssignProg(p, p, f) : p \in 1..3, f \in BOOLEAN}
 
 \* read-modify-write statements whose right-hand side CHANGES the target while it is evaluated: x op= E reads x
